@@ -206,3 +206,21 @@ HARMLESS += [
  # redundant guard: terms whose target indices sit on different positions never share a prefilter key
  {"id": "c07-h-target-map", "prop": "C07", "file": _SI, "old": "                    if is_target != other_is_target or \\\n                            (is_target and other_is_target and\n                             idx is not other_idx):\n                        continue", "new": "                    if is_target != other_is_target:\n                        continue"},
 ]
+_IX = "adcgen/indices.py"
+_EC = "adcgen/expr_container.py"
+MUTANTS += [
+ {"id": "c08-cycle-temp", "prop": "C08", "file": _IX, "old": "                subs.append((o, p))\n                final_subs.append((p, n))", "new": "                subs.append((o, n))"},
+ {"id": "c08-chain-order", "prop": "C08", "file": _IX, "old": "                final_subs.insert(0, (o, n))", "new": "                subs.append((o, n))"},
+ {"id": "c08-identity-skip", "prop": "C08", "file": _IX, "old": "        if (other_n := subsdict.get(n, None)) is not None:\n            if other_n in subsdict:", "new": "        if (other_n := subsdict.get(n, None)) is not None:\n            if other_n not in subsdict:"},
+ {"id": "c08-permute-direction", "prop": "C08", "file": _EC, "old": "                if new is p:\n                    sub[old] = q\n                    del addition[p]", "new": "                if new is p:\n                    sub[old] = p\n                    del addition[p]"},
+ {"id": "c08-permute-update", "prop": "C08", "file": _EC, "old": "            if addition:\n                sub.update(addition)", "new": "            sub.update({p: q, q: p})"},
+ {"id": "c08-lowest-offbyone", "prop": "C08", "file": _IX, "old": "    required = len(used) + n  # the number", "new": "    required = n  # the number"},
+ {"id": "c08-lowest-suffix", "prop": "C08", "file": _IX, "old": "    suffix = 1\n    while len(idx) < required:", "new": "    suffix = 0\n    while len(idx) < required:"},
+ {"id": "c08-registry-new-object", "prop": "C08", "file": _IX, "old": "            if symbol is not None:\n                ret[key].append(symbol)\n                continue", "new": "            if symbol is not None and False:\n                ret[key].append(symbol)\n                continue"},
+ {"id": "c08-generic-reuse", "prop": "C08", "file": _IX, "old": "        new_idx = [idx + counter for idx in self.base[space]\n                   if idx + counter not in used_names]", "new": "        new_idx = [idx + counter for idx in self.base[space]]"},
+ {"id": "c08-subst-target", "prop": "C08", "file": _EC, "old": "        for s in set(self.target):\n            if (key := s.space_and_spin) not in used:", "new": "        for s in set():\n            if (key := s.space_and_spin) not in used:"},
+ {"id": "c19-cache-psi", "prop": "C19", "file": "adcgen/groundstate.py", "old": "    def psi(self, order: int, braket: str):", "new": "    @cached_member\n    def psi(self, order: int, braket: str):"},
+ {"id": "c19-hash-decides", "prop": "C19", "file": _IX, "old": "                idx.name[0],\n                idx.name,\n", "new": "                idx.name[0],\n"},
+ {"id": "c19-hardcoded-name", "prop": "C19", "file": "adcgen/groundstate.py", "old": "        tensor_name = f\"{tensor_names.gs_amplitude}{order}\"", "new": "        tensor_name = f\"t{order}\""},
+ {"id": "c19-set-iteration", "prop": "C19", "file": _EC, "old": "        for s in self.contracted:\n            if (key := s.space_and_spin) not in contracted:\n                contracted[key] = []\n            contracted[key].append(s)\n        used = {}", "new": "        for s in set(self.contracted):\n            if (key := s.space_and_spin) not in contracted:\n                contracted[key] = []\n            contracted[key].append(s)\n        used = {}"},
+]
